@@ -10,6 +10,7 @@ import (
 	"os/exec"
 	"path/filepath"
 	"runtime"
+	"sort"
 	"strconv"
 	"sync"
 	"sync/atomic"
@@ -85,6 +86,22 @@ type schedResult struct {
 	Obs      map[string]string `json:"obs"`
 	Hist     []histOp          `json:"hist,omitempty"`
 	Final    map[string]string `json:"final,omitempty"`
+	Cfg      *l2cfg            `json:"cfg,omitempty"`
+	Evs      []schedEv         `json:"evs,omitempty"`
+}
+
+type schedEv struct {
+	Ev string `json:"ev"` // A atomic op, B read begins (parked after lookup), E read ends
+	C  int    `json:"c"`
+	Op l2op   `json:"o"`
+}
+
+func bytesRepeat(b byte, n int) []byte {
+	x := make([]byte, n)
+	for i := range x {
+		x[i] = b
+	}
+	return x
 }
 
 type histOp struct {
@@ -432,6 +449,116 @@ func init() {
 				run.hs.Close()
 				os.RemoveAll(run.home)
 				out.Emit(schedResult{I: n, Scenario: "stress", Variant: fmt.Sprintf("clients=%d keys=%d", nclients, len(keys)), Hist: hist, Final: final})
+				n++
+			}
+		}
+		// ---- S5: split reads (C04): readers parked between position lookup and positional read while
+		// other clients write, rotate files, flush and dump hints; the event trace is replayed on the model ----
+		if which == "all" || which == "splitread" {
+			for rep := 0; rep < count; rep++ {
+				rng := NewRng(seed*733 + uint64(rep))
+				run := schedStore(root, n, []int64{512, 1024, 4096}[rng.Intn(3)], []int64{3, 8, 1 << 20}[rng.Intn(3)])
+				run.cfg.CheckVHash = rng.Chance(2)
+				if err := run.open(); err != nil {
+					return err
+				}
+				keys := []string{"k0", "k1", "k2", "k3"}[:2+rng.Intn(3)]
+				nops := 12 + rng.Intn(30)
+				type pend struct {
+					rule *parkRule
+					done chan l2op
+				}
+				pending := map[int]*pend{}
+				var evs []schedEv
+				nextc := 0
+				tsn := uint32(1000)
+				for j := 0; j < nops; j++ {
+					p := rng.Intn(20)
+					switch {
+					case p < 4 && len(pending) < 3: // begin a read and park it after the lookup
+						k := keys[rng.Intn(len(keys))]
+						meta := rng.Chance(3)
+						c := nextc
+						nextc++
+						rule := pk.arm("get.looked", 0)
+						done := make(chan l2op, 1)
+						op := "G"
+						if meta {
+							op = "M"
+						}
+						go func() {
+							o := l2op{Op: op, K: hx(k)}
+							run.exec(&o)
+							done <- o
+						}()
+						select {
+						case <-rule.arrived:
+							pending[c] = &pend{rule, done}
+							evs = append(evs, schedEv{Ev: "B", C: c, Op: l2op{Op: op, K: hx(k)}})
+						case o := <-done: // a miss in the index never reaches the positional read
+							pk.mu.Lock()
+							delete(pk.rules, "get.looked")
+							pk.mu.Unlock()
+							evs = append(evs, schedEv{Ev: "B", C: c, Op: l2op{Op: op, K: hx(k)}})
+							evs = append(evs, schedEv{Ev: "E", C: c, Op: o})
+						case <-time.After(5 * time.Second):
+							return fmt.Errorf("splitread: reader neither parked nor finished")
+						}
+					case p < 8 && len(pending) > 0: // finish one pending read
+						var ids []int
+						for c := range pending {
+							ids = append(ids, c)
+						}
+						sort.Ints(ids)
+						c := ids[rng.Intn(len(ids))]
+						pe := pending[c]
+						delete(pending, c)
+						close(pe.rule.release)
+						o := <-pe.done
+						evs = append(evs, schedEv{Ev: "E", C: c, Op: o})
+					default:
+						var o l2op
+						k := keys[rng.Intn(len(keys))]
+						switch q := rng.Intn(12); {
+						case q < 6:
+							v := fmt.Sprintf("v%d-", j) + string(bytesRepeat('a'+byte(j%26), rng.Intn(220)))
+							tsn++
+							o = l2op{Op: "S", K: hx(k), V: hx(v), TS: tsn}
+						case q < 8:
+							o = l2op{Op: "D", K: hx(k)}
+						case q < 9:
+							o = l2op{Op: "G", K: hx(k)}
+						case q < 10:
+							o = l2op{Op: "M", K: hx(k)}
+						case q < 11:
+							o = l2op{Op: "F"}
+						default:
+							o = l2op{Op: "H"}
+						}
+						run.exec(&o)
+						evs = append(evs, schedEv{Ev: "A", Op: o})
+					}
+				}
+				var ids []int
+				for c := range pending {
+					ids = append(ids, c)
+				}
+				sort.Ints(ids)
+				for _, c := range ids {
+					pe := pending[c]
+					close(pe.rule.release)
+					o := <-pe.done
+					evs = append(evs, schedEv{Ev: "E", C: c, Op: o})
+				}
+				for _, k := range keys {
+					o := l2op{Op: "G", K: hx(k)}
+					run.exec(&o)
+					evs = append(evs, schedEv{Ev: "A", Op: o})
+				}
+				run.hs.VerifWaitIdle()
+				run.hs.Close()
+				os.RemoveAll(run.home)
+				out.Emit(schedResult{I: n, Scenario: "splitread", Variant: fmt.Sprintf("keys=%d ops=%d", len(keys), nops), Cfg: &run.cfg, Evs: evs})
 				n++
 			}
 		}
